@@ -451,8 +451,10 @@ def check_leg(schedule, plan, ticks, leg, res: Result):
             return
         if missing:
             res.stats["fault:missing_control"] += 1
-            if rec["exc"] != "TypeError" or calls:
-                res.add("C11", "missing_control", f"C11:{leg}:missing_control", i, "TypeError and no filter call", f"exc={rec['exc']} calls={len(calls)}", leg)
+            # the property says such a tick "cannot" happen: any refusal (TypeError today, any exception class) is fine,
+            # a tick that goes through, or one that reaches the filter before refusing, is not
+            if rec["exc"] is None or calls:
+                res.add("C11", "missing_control", f"C11:{leg}:missing_control", i, "the tick is refused (an exception) and the filter is not called", f"exc={rec['exc']} calls={len(calls)}", leg)
                 if rec["exc"] is None:
                     res.truncated = "state_unknown"
                     return
